@@ -25,7 +25,7 @@ ASSUMPTIONS = ["two references sharing nothing with Genz's algorithm: Plackett's
                "scipy.integrate.quad (epsabs 1e-13); a point where they disagree by >1e-10 is counted as oracle-inconclusive, not judged",
                "reference clause for |r|<=1-1e-6; structural clauses (range, monotonicity, rectangle mass, tails, marginals) up to 1-1e-12",
                "epsilon 1e-9 for the structural clauses (rounding residues of 1e-45 are not violations); 1e-7 from the statement for accuracy"]
-REQUIRED_NOTES = ["large-cases"]
+REQUIRED_NOTES = ["large-cases", "far-mean-cases"]
 TECHNIQUE = "runtime monitoring: postcondition monitor on the kernel CDFs with two quadrature references and structural CDF invariants on sorted grids"
 
 EPS = 1e-9
@@ -90,6 +90,12 @@ def run_case(ctx, k, rng):
         vx, vy = vx * f, vy * f
     sx, sy = math.sqrt(vx), math.sqrt(vy)
     mx, my = float(rng.normal(0, 3)) * sx, float(rng.normal(0, 3)) * sy
+    if rng.random() < 0.12:
+        # a narrow kernel far from the origin (time stamps, elevations): |mean| / sd of 1e6 ... 1e11 in one or both coordinates
+        mx = sx * float(10.0 ** rng.uniform(6, 11)) * float(rng.choice([-1, 1])) + float(rng.random()) * sx
+        if rng.random() < 0.6:
+            my = sy * float(10.0 ** rng.uniform(6, 11)) + float(rng.random()) * sy
+        ctx.note("far-mean-cases")
     cov = r * sx * sy
     r_eff = cov / math.sqrt(vx * vy)     # what the code will compute
     sigma = np.array([[vx, cov], [cov, vy]])
@@ -144,6 +150,7 @@ def run_case(ctx, k, rng):
             zs = np.unique(np.concatenate([zs, np.linspace(-7.5, 7.5, int(rng.integers(250, 390))) + float(rng.normal(0, 0.01))]))
             ctx.note("large-cases")
         gx, gy = mx + zs * sx, my + zs * sy
+        zx, zy = (gx - mx) / sx, (gy - my) / sy       # the standardised coordinates the evaluation points really have (far means round them)
         XX, YY = np.meshgrid(gx, gy, indexing="ij")
         G = F(XX.ravel(), YY.ravel(), "gaussian").reshape(len(gx), len(gy))
         finite = bool(np.all(np.isfinite(G)))
@@ -157,7 +164,7 @@ def run_case(ctx, k, rng):
                       rect_std=[float(zs[i]), float(zs[i + 1]), float(zs[j]), float(zs[j + 1])])
             ctx.check("tails tend to 0 and 1", G[0, :].max() <= EPS and G[:, 0].max() <= EPS and abs(G[-1, -1] - 1) <= EPS,
                       low=float(max(G[0, :].max(), G[:, 0].max())), high=float(G[-1, -1]), r=r_eff)
-            mxm = np.max(np.abs(G[:, -1] - ndtr(zs))); mym = np.max(np.abs(G[-1, :] - ndtr(zs)))
+            mxm = np.max(np.abs(G[:, -1] - ndtr(zx))); mym = np.max(np.abs(G[-1, :] - ndtr(zy)))
             ctx.check("marginals recovered far in the upper tail", max(mxm, mym) <= 1e-7, worst=float(max(mxm, mym)), r=r_eff)
         if finite and rng.random() < 0.5:
             # the same evaluation points in other argument forms: strided 1-D views, a read-only array, mean / covariance given as
@@ -175,7 +182,7 @@ def run_case(ctx, k, rng):
             ctx.check("other argument forms give the same values", G2.shape == G.shape and np.array_equal(G2, G), form=form,
                       shape=G2.shape, worst=float(np.max(np.abs(G2 - G))) if G2.shape == G.shape else None)
         if cov == 0.0:
-            prod = np.outer(ndtr(zs), ndtr(zs))
+            prod = np.outer(ndtr(zx), ndtr(zy))
             ctx.check("zero covariance => product of marginals", finite and np.max(np.abs(G - prod)) <= 1e-14, worst=float(np.max(np.abs(G - prod))))
             S = np.asarray(K.sbvn_cdf(XX.ravel(), YY.ravel(), mu_x=mx, mu_y=my, sigma_x=vx, sigma_y=vy), float).reshape(G.shape)
             ctx.ran()
